@@ -50,7 +50,16 @@ struct VT {
   Watch watch[4];
 };
 
+struct Region {
+  const char *lo = nullptr;
+  const char *hi = nullptr;
+  const char *kind = nullptr;
+  const char *what = nullptr;
+};
+
 struct Exec {
+  Region region[kMaxT];
+  int nregions = 0;
   std::unique_ptr<VT> t[kMaxT];
   int n = 0;
   uint64_t step = 0;
@@ -224,9 +233,24 @@ self()
 }
 
 void
+check_regions(const void *addr)
+{
+  if (E->nregions == 0 || addr == nullptr) return;
+  const char *a = static_cast<const char *>(addr);
+  for (int o = 0; o < kMaxT; o++) {
+    const auto &r = E->region[o];
+    if (r.lo != nullptr && o != my && a >= r.lo && a < r.hi) {
+      report(r.kind, std::string("T") + std::to_string(my) + " accesses " + r.what + " of T" + std::to_string(o));
+      return;
+    }
+  }
+}
+
+void
 pre_op(Kind k, const void *addr)
 {
   if (!active()) return;
+  check_regions(addr);
   step_common(k, addr);
   sched_decision(k);
 }
@@ -441,6 +465,27 @@ harness_yield()
   step_common(kHarness, nullptr);
   me.yielding = true;
   sched_decision(kHint);
+}
+
+void
+region_set(int owner, const void *lo, const void *hi, const char *kind, const char *what)
+{
+  if (E == nullptr || owner < 0 || owner >= kMaxT) return;
+  auto &r = E->region[owner];
+  if (r.lo == nullptr) E->nregions++;
+  r.lo = static_cast<const char *>(lo);
+  r.hi = static_cast<const char *>(hi);
+  r.kind = kind;
+  r.what = what;
+}
+
+void
+region_clear(int owner)
+{
+  if (E == nullptr || owner < 0 || owner >= kMaxT) return;
+  auto &r = E->region[owner];
+  if (r.lo != nullptr) E->nregions--;
+  r.lo = nullptr;
 }
 
 void
